@@ -274,6 +274,12 @@ def is_py3_test(t):
         and isinstance(t.ops[0], (ast.GtE, ast.Eq)) and const(t.comparators[0]) == 3
 
 
+def is_py2_test(t):
+    """sys.version_info[0] < 3"""
+    return isinstance(t, ast.Compare) and isinstance(t.left, ast.Subscript) and 'version_info' in ast.dump(t.left) \
+        and isinstance(t.ops[0], ast.Lt) and const(t.comparators[0]) == 3
+
+
 def translate_body(stmts, env):
     """straight-line assignments, `if` on the interpreter version (python-3 branch taken) or on a
     translatable condition, ending in return EXPR.  Returns a Coq term."""
@@ -289,6 +295,8 @@ def translate_body(stmts, env):
         if isinstance(st, ast.If):
             if is_py3_test(st.test):
                 return translate_body(st.body + stmts[i + 1:], env)
+            if is_py2_test(st.test):
+                return translate_body(st.orelse + stmts[i + 1:], env)
             rest = stmts[i + 1:]
             return '(if %s then %s else %s)' % (py2coq_bool(st.test, env), translate_body(st.body + rest, env),
                                                 translate_body(st.orelse + rest, env))
@@ -466,6 +474,82 @@ def gen_expr(out):
 
 
 EXTRA.append(gen_expr)
+
+
+def ophsl_call(color_t, name):
+    """Color.<name>: `return self._ophsl(color, diff, IDX, operator.OP)` -> [idx, op]"""
+    fn = find_def(color_t, 'Color', name)
+    for n in ast.walk(fn):
+        if isinstance(n, ast.Call) and isinstance(n.func, ast.Attribute) and n.func.attr == '_ophsl' and len(n.args) == 4:
+            op = n.args[3]
+            if isinstance(op, ast.Attribute) and isinstance(op.value, ast.Name) and op.value.id == 'operator':
+                return [const(n.args[2]), op.attr]
+    raise ValueError('no _ophsl call in %s' % name)
+
+
+def round_fn_used(color_t, fn_name):
+    """which utility rounding function a Color method applies to c * 255"""
+    fn = find_def(color_t, 'Color', fn_name)
+    for n in ast.walk(fn):
+        if isinstance(n, ast.Call) and isinstance(n.func, ast.Attribute) and n.func.attr in ('away_from_zero_round', 'convergent_round'):
+            arg = n.args[0]
+            if isinstance(arg, ast.BinOp) and isinstance(arg.op, ast.Mult) and const(arg.right) == 255:
+                return n.func.attr
+    raise ValueError('no rounding call in %s' % fn_name)
+
+
+def gen_hsl(out):
+    color_t = src_ast('lesscpy/lessc/color.py')
+    util_t = src_ast('lesscpy/lessc/utility.py')
+    out.put('ophsl_table', 'list (str * (nat * pyop))',
+            lambda v: coq_list(['(%s, (%d%%nat, %s))' % (coq_str(k), idx, OPERATOR.get(op, 'PArith OOther')) for k, (idx, op) in v]),
+            lambda: [[nm, ophsl_call(color_t, nm)] for nm in ('lighten', 'darken', 'saturate', 'desaturate')])
+    out.put('ophsl_round', 'str', coq_str, lambda: round_fn_used(color_t, '_ophsl'))
+    out.put('spin_round', 'str', coq_str, lambda: round_fn_used(color_t, 'spin'))
+    out.put('hsl_round', 'str', coq_str, lambda: round_fn_used(color_t, 'hsl'))
+    # greyscale = desaturate(color, 100.0)
+    def grey():
+        fn = find_def(color_t, 'Color', 'greyscale')
+        for n in ast.walk(fn):
+            if isinstance(n, ast.Call) and isinstance(n.func, ast.Attribute) and isinstance(n.func.value, ast.Name) and n.func.value.id == 'self':
+                return [n.func.attr, repr(const(n.args[1]))]
+        raise ValueError('greyscale shape')
+    out.put('greyscale_call', 'str * Q', lambda v: '(%s, %s)' % (coq_str(v[0]), q_const(float(v[1]))), grey)
+    # spin: h = ((h * 360.0) + degree) % 360.0 ; h = 360.0 + h if h < 0 else h   (translated)
+    def spin_hue():
+        fn = find_def(color_t, 'Color', 'spin')
+        env = {'h': 'h', 'degree': 'degree'}
+        exprs = []
+        for n in ast.walk(fn):
+            if isinstance(n, ast.Assign) and isinstance(n.targets[0], ast.Name) and n.targets[0].id == 'h':
+                exprs.append((n.lineno, n.value))
+        exprs.sort(key=lambda x: x[0])
+        if len(exprs) != 2:
+            raise ValueError('spin: expected two assignments to h')
+        e1 = py2coq(exprs[0][1], env)
+        e2 = py2coq(exprs[1][1], dict(env, h='h1'))
+        return '(let h1 := %s in %s)' % (e1, e2)
+    out.put('spin_hue_py', 'Q -> Q -> Q', lambda v: '(fun h degree => (%s)%%Q)' % v, spin_hue)
+    # mix: weight arithmetic (alpha = 0)
+    def mix_w1():
+        fn = find_def(color_t, 'Color', 'mix')
+        env = {'weight': 'weight'}
+        seen = {}
+        order = []
+        for st in ast.walk(fn):
+            if isinstance(st, ast.Assign) and isinstance(st.targets[0], ast.Name) and st.targets[0].id in ('weight', 'alpha', 'w1', 'w2'):
+                order.append((st.lineno, st.col_offset, st.targets[0].id, st.value))
+        order.sort(key=lambda x: (x[0], x[1]))
+        for _, _, name, val in order:
+            if name == 'weight' and isinstance(val, ast.Call):
+                continue                      # weight = float(weight.strip('%')) : string handling, modelled by hand
+            env[name] = py2coq(val, env)
+        return [env['w1'], env['w2']]
+    out.put('mix_weights_py', 'Q -> Q * Q', lambda v: '(fun weight => ((%s)%%Q, (%s)%%Q))' % (v[0], v[1]), mix_w1)
+    put_fn(out, 'convergent_round_py', lambda: find_def(util_t, None, 'convergent_round'), ['value', 'ndigits'])
+
+
+EXTRA.append(gen_hsl)
 
 
 def render(out):
